@@ -276,7 +276,9 @@ func injectDriver(a *Args) {
 		}
 		reprSame := h.Get("Content-Type") == injectCtype(ic.Ctype) && h.Get("Content-Encoding") == wantEnc
 		frameOK := h.Get("Content-Encoding") == "" && bytes.Contains(got, []byte(`src="`+requested+`"`)) && strings.Contains(h.Get("Cache-Control"), "no-store") &&
-			strings.EqualFold(h.Get("X-Frame-Options"), "sameorigin") && bytes.Count(got, []byte("<iframe")) == 1
+			strings.EqualFold(h.Get("X-Frame-Options"), "sameorigin") && bytes.Count(got, []byte("<iframe")) == 1 &&
+			// the frame page stands in for the document: it is one page, and the backend's body is not part of it
+			bytes.Count(got, []byte("</html>")) <= 1 && (len(orig) < 16 || !bytes.Contains(got, orig))
 		c := map[string]interface{}{"method": ic.Method, "accept": ic.Accept, "mode": ic.Mode, "dest": ic.Dest, "referer": ic.Referer, "status": ic.Status,
 			"ctype": ic.Ctype, "dispo": ic.Dispo, "body": ic.Body, "first": ic.First, "banner": ic.Banner, "shim": ic.Shim, "cenc": ic.Cenc, "setup": ic.Setup}
 		out := map[string]interface{}{"kind": kind, "hdrs_same": hdrsSame && reprSame, "repr_same": reprSame, "frame_ok": frameOK, "status": rec.Code, "len": len(got), "orig_len": len(orig)}
